@@ -199,6 +199,8 @@ def run_c12(prop, spec, tier, seed, args):
 PARSE_SRC = re.compile(r"(^|[^A-Za-z0-9_])(from_reader|from_str|from_slice|from_value)::<[^()]*SetSketchParams")
 TRUNC_SRC = re.compile(r"OpenOptions::truncate|File::create\b|File::create_new\b|File::set_len|fs::write\b|fs::rename\b|(^|[^A-Za-z0-9_])rename\b")
 WRITE_SINK = re.compile(r"(^|[^A-Za-z0-9_])(to_writer|to_writer_pretty|write_all|write_fmt)\b|Write>?::write\b")
+VAL_SINK = re.compile(r"(^|[^A-Za-z0-9_])serialize_(field|element|entry|value|key|f64|f32|u64|u32|u16|u8|i64|i32|newtype_struct|newtype_variant|some)\b")
+MIR_ARITH = re.compile(r"^\s*(_\d+) = (?:(Mul|Div|Add|Sub|Rem|AddWithOverflow|SubWithOverflow|MulWithOverflow|Shl|Shr|BitAnd|BitOr|BitXor|Neg)\(|.* as [a-z0-9]+ \((FloatToFloat|FloatToInt|IntToFloat|IntToInt)\))", re.M)
 UNWRAPS = re.compile(r"Result::<[^(]*>::(unwrap|expect|unwrap_or|unwrap_or_default|unwrap_or_else|unwrap_unchecked|expect_err)\b|Option::<[^(]*>::(unwrap|expect)\b")
 
 
@@ -253,10 +255,39 @@ def run_c20(prop, spec, tier, seed, args):
                         stale.append(r)
             if k == 0:
                 results.append({"obligation": "dump_json writes through a serde_json/io writer call (vacuity guard of the truncation obligation)", "verdict": "inconclusive", "solvers": []})
+        # value side: what the crate hands to a serde serializer must be the stored value itself, not something computed
+        # from it (rounded, narrowed, rescaled): on the MIR data-flow graph of every crate function that calls a serde
+        # `serialize_*` primitive, no result of an arithmetic operation, numeric cast or call may reach the value argument
+        derived = []
+        ser_fns = set(fi for fi, f in enumerate(fns) if any(VAL_SINK.search(m.group(2)) for m in re.finditer(r"^\s*(_\d+) = (.*?)\((.*)\) -> \[return", f.body, re.M)))
+        ser_names = set(fns[fi].name for fi in ser_fns)
+        vclauses, vfacts = T.analyse(fns, lambda callee, a, f: f.name in ser_names and not VAL_SINK.search(callee) and not re.search(r"serialize_struct|serialize_seq|serialize_map|serialize_tuple|SerializeStruct>?::end|::end\b|Formatter|fmt::", callee), "computed-value")[:2]
+        vfacts = list(vfacts)
+        for fi in ser_fns:
+            for m in MIR_ARITH.finditer(fns[fi].body):
+                vfacts.append(("f%d%s" % (fi, m.group(1)), "%s: %s" % (fns[fi].name, m.group(0).strip()[:160])))
+        kv = 0
+        for fi in sorted(ser_fns):
+            f = fns[fi]
+            for m in re.finditer(r"^\s*(_\d+) = (.*?)\((.*)\) -> \[return", f.body, re.M):
+                if not VAL_SINK.search(m.group(2)):
+                    continue
+                al = T.base_locals(m.group(3))
+                if not al:
+                    continue
+                verdict, answers = T.entailed(vclauses, vfacts, "f%d%s" % (fi, al[-1]), work, "c20v_%d" % kv)
+                kv += 1
+                r = {"obligation": "the value passed to `%s` in %s is not computed (no arithmetic, cast or call result reaches it): the stored field itself is dumped" % (re.sub(r"::<.*$", "", m.group(2)).split("::")[-1], f.name[:80]),
+                     "verdict": {"entailed": "COMPUTED", "not-entailed": "holds", "inconclusive": "inconclusive"}[verdict], "solvers": answers}
+                results.append(r)
+                if verdict == "entailed":
+                    derived.append(r)
+        if kv == 0:
+            results.append({"obligation": "the crate's Serialize code calls a serde serialize_* primitive (vacuity guard of the value obligation)", "verdict": "inconclusive", "solvers": []})
         vlines, undec = [], []
         native_note = ""
         guard_bad = any(r["verdict"] == "inconclusive" for r in results)
-        if findings or stale or tier == "thorough" or guard_bad:
+        if findings or stale or derived or tier == "thorough" or guard_bad:
             exe, err = build_native("c20", work)
             if exe:
                 td = tempfile.mkdtemp(prefix="pmhv-c20d-", dir=pmhv.SCRATCH_ROOT)
@@ -274,6 +305,8 @@ def run_c20(prop, spec, tier, seed, args):
                     vlines.append("  " + native_note[:300])
                 elif stale:
                     undec.append("no truncating open reaches the writer of dump_json on the MIR data-flow graph, but a dump over an older, longer file reloads natively")
+                elif derived:
+                    undec.append("a computed value reaches a serde serializer call on the MIR data-flow graph, but the dumped parameters reload to the same values natively (two parameter tuples)")
                 elif findings:
                     undec.append("an unwrap-family call consumes the parse result on the MIR data-flow graph, but every prefix of the file is reported as Err natively")
             else:
@@ -285,7 +318,7 @@ def run_c20(prop, spec, tier, seed, args):
             "property_id": prop, "tier": tier, "seed": seed, "level": "other",
             "coverage": {
                 "explanation": "Error-path clause and the truncating open of the dump. The MIR of the current tree is turned into data-flow implications (lib/smt_taint.py) and z3/cvc5 decide, per unwrap-family call in reload_json, whether the Result of the serde_json parse call is entailed to reach it (a torn file makes that Result an Err, so reaching an unwrap = abort, reaching unwrap_or* = different parameters). "
-                               "On the dump side the solvers decide whether a truncating open (OpenOptions::truncate(true), File::create, set_len, rename) is entailed to reach the writer that receives the JSON text. A reached unwrap / a missing truncation is confirmed natively (native/c20: reload of every prefix of a dumped file; dump over an older, longer file, then reload) before it is reported. NOT decided: the value round trip (ryu printing / serde_json float parsing on symbolic f64 are out of reach of both engines).",
+                               "On the dump side the solvers decide whether a truncating open (OpenOptions::truncate(true), File::create, set_len, rename) is entailed to reach the writer that receives the JSON text. A reached unwrap / a missing truncation is confirmed natively (native/c20: reload of every prefix of a dumped file; dump over an older, longer file, then reload) before it is reported. On the value side the solvers decide, for every serde serialize_* call in the crate's own (derived or hand-written) Serialize code, whether a computed value (arithmetic, numeric cast, call result) is entailed to reach the value argument - the stored field itself must be dumped; a computed value is confirmed natively (dump, reload, compare) before it is reported. NOT decided: exactness of ryu printing / serde_json float parsing themselves (symbolic f64 text conversion is out of reach of both engines).",
                 "evaluations": len(results), "distinct_nontrivial": max(2, len(results)) if len(results) >= 2 else len(results),
                 "samples": results, "obligations": len(results), "discharged": sum(1 for r in results if r["verdict"] == "holds"),
                 "native_confirmation": native_note,
